@@ -363,6 +363,15 @@ func runMiniOn(kb *ast.KnowledgeBase, s MiniScenario, fact *MiniFact, topT int64
 	}
 	obs.ErrCalls = calls
 	obs.RawLog = log
+	po := parseLog(log, s, obs.Outcome)
+	obs.Events, obs.Orders, obs.Inactive, obs.ListenersAgree = po.Events, po.Orders, po.Inactive, po.ListenersAgree
+	return
+}
+
+// parseLog turns the interleaved log of ctx.Err() calls and listener callbacks into events and
+// per-pass iteration orders
+func parseLog(log []string, s MiniScenario, outcome string) (obs MiniObs) {
+	obs.Outcome = outcome
 	// listener 0 is the reference; the others must have seen the same sequence
 	obs.ListenersAgree = true
 	per := make([][]string, s.Listeners)
